@@ -64,10 +64,16 @@ def decorate(behs, rng):
         b["wrap"] = rng.choice(["none", "none", "box", "arc"])
         b["plf"] = rng.random() < 0.5
         out, pending_release, steps = [], None, b["steps"]
+        nbad = 0
         for i, st in enumerate(steps):
             st = dict(st)
             if st["op"] == "new" and b["plf"] and rng.random() < 0.35:
                 st["hide"] = True
+            elif st["op"] == "new" and nbad < 4 and rng.random() < 0.2:
+                # one of the span's fields cannot be formatted (its Debug impl fails): the ErrorSubscriber stores nothing for it,
+                # a captured SpanTrace must list it all the same
+                st["bad"] = nbad
+                nbad += 1
             if st["op"] == "clone" and rng.random() < 0.35:
                 st["raw"] = rng.choice(["try_close", "drop_span"])
             if st["op"] == "exit" and rng.random() < 0.2:
